@@ -287,6 +287,7 @@ fn main() {
                 let mut after_full = 0;
                 for _ in 0..len {
                     time_passes(&sys.e, &mut r, 3000);
+                    time_passes_long(&sys.e, &mut r);
                     let op = random_op(&mut r, &sys, &voted);
                     let ev = sys.step(&op);
                     voted = ev["obs"]["voted"].as_array().unwrap().iter().map(|x| x.as_u64().unwrap() as u32).collect();
